@@ -314,11 +314,14 @@ fn generate(rng: &mut Rng) -> Scenario {
             let bias = if base_reg == 6 {
                 0
             } else {
-                match rng.below(4) {
+                match rng.below(6) {
                     0 => 0,
                     1 => (region_len as i32).min(64),
                     2 => -(rng.range(1, 200) as i32),
-                    _ => (region_len as i32 / 2) & !7,
+                    3 => (region_len as i32 / 2) & !7,
+                    // displacements at the edge of the one-byte encoding: +128, -128, +120, -136
+                    4 => off as i32 - *rng.pick(&[128i32, 120, 127 & !3, 136]),
+                    _ => off as i32 + *rng.pick(&[128i32, 136, 124, 132]),
                 }
             };
             let bias = if (off as i32 - bias) > 32000 || (off as i32 - bias) < -32000 { 0 } else { bias };
